@@ -82,3 +82,6 @@ func VS_C04_future_races() {
 		return (g.resMsg == m1 && g.resErr == nil) || (g.resMsg == nil && g.resErr == errT)
 	})
 }
+
+// VrtIsClosed reports whether the future has completed (for harnesses in other packages).
+func VrtIsClosed[T vivid.Message](f *Future[T]) bool { return f.closed.Load() }
